@@ -2,7 +2,7 @@
 import os, itertools, subprocess, tempfile
 from vp import build, core, mmd, pmap
 
-TEXTS = [b"a", b"", b"b c", b"\n\n", b"\\{x\\}", b"\xc3\xa9"]
+TEXTS = [b"a", b"", b"b c", b"\n\n", b"\\{x\\}", b"\xc3\xa9", b"z\\{"]      # incl. a payload that ends in an escaped brace right before the closer
 MARKS = [b"{++", b"++}", b"{--", b"--}", b"{>>", b"<<}", b"{~~", b"~>", b"~~}", b"{==", b"==}"]
 
 def gen(depth):
